@@ -409,7 +409,15 @@ fn sync_write(op: &Value) -> Value {
         // like write_all, but an empty chunk still results in one write() call
         let mut rest = chunk;
         loop {
-            match w.write(rest) {
+            let vectored = op.get("vectored").and_then(|v| v.as_bool()) == Some(true);
+            let res = if vectored {
+                // scatter/gather entry point: the same bytes handed over as two slices
+                let mid = rest.len() / 2;
+                w.write_vectored(&[std::io::IoSlice::new(&rest[..mid]), std::io::IoSlice::new(&rest[mid..])])
+            } else {
+                w.write(rest)
+            };
+            match res {
                 Ok(k) => {
                     if k > rest.len() {
                         return json!({"r":"err","v":"Bogus","msg":"write returned more than given"});
